@@ -251,11 +251,13 @@ def run_c20(ctx):
     with Driver() as drv, tempfile.TemporaryDirectory() as d:
         for i in range(n):
             rng, spec, params = case_of(ctx.seed + 9, i, profile="core")
-            su_h = rng.choice([3, 6, 12, 24])
+            su_h = rng.choice([3, 6, 12, 24, 48, 96])
             pu_h = rng.choice([3, 6, 12, 24])
             A = [rng.choice([0, 1, 2, 4, 30]) for _ in range(rng.randint(0, 3))]   # duplicates and steps beyond the end included
             if rng.random() < 0.5:
                 A = sorted(set(A))
+            elif A:
+                A = A + [rng.choice(A)]        # an absence step listed twice (e.g. a weekend list plus a holiday list)
             subp = build(spec, plain=True)
             subp.unit_timedelta = datetime.timedelta(hours=su_h)
             ok_run = rng.random() < 0.85
@@ -347,12 +349,32 @@ def run_c20(ctx):
                 sub.append_input_task(pre)
             post.append_input_task(sub)
             w = BaseWorker("w", ID="w0", workamount_skill_mean_map={"PRE": 1.0, "POST": 1.0})
-            tm = BaseTeam("tm", ID="team0", worker_list=[w], targeted_task_list=[pre, post])
             tasks = ([pre] if has_pre else []) + [sub, post]
+            tm = BaseTeam("tm", ID="team0", worker_list=[w], targeted_task_list=[t_ for t_ in tasks if t_ is not sub])
             parent = BaseProject(init_datetime=datetime.datetime(2020, 1, 1), unit_timedelta=punit, product=BaseProduct([]),
                                  organization=BaseOrganization([tm], []), workflow=BaseWorkflow(tasks))
             pa = sorted(set(rng.choice([0, 1, 2, 3, 5]) for _ in range(rng.randint(0, 2))))
             pparams = dict(rule=0, absence=pa, autoFlag=False, maxTime=400, initState=True, initLog=True)
+            via_json = rng.random() < 0.4
+            if via_json:
+                # the configured parent is saved and loaded before it is simulated; the loaded sub-project task is
+                # related to the parent's unit again (as a user would after loading)
+                try:
+                    ppath = os.path.join(d, "parent%d.json" % i)
+                    parent.write_simple_json(ppath)
+                    parent = BaseProject()
+                    parent.read_simple_json(ppath)
+                    byid = {t.ID: t for t in parent.workflow.task_list}
+                    sub, post = byid["sub"], byid["post"]
+                    pre = byid.get("pre", pre)
+                    sub.set_work_amount_progress_of_unit_step_time(punit)
+                except Exception as e:
+                    ctx.violations.append(dict(property="C20", what="saving / loading the parent with the configured sub-project task raised %r" % e, case=case))
+                    continue
+                if sub.default_work_amount != D or Fr(sub.work_amount_progress_of_unit_step_time) != Fr(pu_h, su_h):
+                    ctx.violations.append(dict(property="C20", what="after saving and loading the parent: work amount %r, rate %r; expected %d and %s" % (
+                        sub.default_work_amount, sub.work_amount_progress_of_unit_step_time, D, Fr(pu_h, su_h)), case=case))
+                    continue
             ix = Index(parent)
             model = extract_model(parent, ix)
             from lockstep import Recorder
